@@ -95,6 +95,14 @@ class Corner(enum.Enum):
     lower = "LOWER"
 
 
+class CornerS(str, enum.Enum):
+    """The same, as a str-mixin enum (whose members *are* strings)."""
+    TYPICAL = "tt"
+    FAST = "ff_1p98v"
+    SAME = "SAME"
+    lower = "LOWER"
+
+
 def expected(spec, scalar_field=True):
     """What the exported parameter must denote: ("num", {acceptable Fractions}, prefix-exp or None) | ("text", s) | ("absent",)."""
     k = spec[0]
@@ -113,7 +121,7 @@ def expected(spec, scalar_field=True):
         return ("num", {Fraction(spec[1])}, None) if scalar_field else ("text", spec[1])
     if k in ("textstr", "literal", "str"):
         return ("text", spec[1])
-    if k == "enum":
+    if k in ("enum", "enum_s"):
         return ("text", spec[1])
     if k == "none":
         return ("absent",)
@@ -252,7 +260,7 @@ def _ext_case(item):
 
     style, spec = item
     try:
-        v = mk_value(spec) if spec[0] != "enum" else Corner[spec[2]]
+        v = Corner[spec[2]] if spec[0] == "enum" else CornerS[spec[2]] if spec[0] == "enum_s" else mk_value(spec)
         ports = [h.Port(name="a"), h.Port(name="b")]
         if style == "dict":
             e = h.ExternalModule(name="E", port_list=ports, paramtype=dict, domain="hv")
@@ -365,6 +373,7 @@ def run(ctx):
     ext_items = [x for x in ext_items if x is not None]
     # string-valued enums reach the package as the member's value
     ext_items += [(style, ("enum", m.value, m.name)) for style in ("dict", "pc_typed") for m in Corner]
+    ext_items += [(style, ("enum_s", m.value, m.name)) for style in ("dict", "pc_typed") for m in CornerS]
     res = ctx.pmap(_ext_case, ext_items, chunk=100)
     for it, r in zip(ext_items, res):
         account(ctx, "external:" + it[0], "E", "p", it[1], r)
